@@ -48,7 +48,10 @@ def build(spec, mode):
     if mode == "sdl":
         from py_gql import build_schema
         eff = H.sdl_view(spec)
-        return build_schema(GS.to_sdl(eff)), eff
+        kw = {"object": "type", "interface": "interface", "union": "union", "enum": "enum", "input": "input", "scalar": "scalar"}
+        # directive-only extensions (`extend type O0 @cd(n: 9)`): their applications belong to the type like the definition's
+        ext = ["extend %s %s %s" % (kw[t["kind"]], n, " ".join(t["ext_applied"])) for n, t in eff["types"].items() if t.get("ext_applied")]
+        return build_schema(GS.to_sdl(eff) + "\n" + "\n".join(ext)), eff
     return GS.build_code(spec), spec
 
 
@@ -65,7 +68,7 @@ def expected_applications(spec, opts, mode):
         out = []
         if mode != "sdl":
             return out
-        for a in x.get("applied", []) or []:
+        for a in (x.get("applied", []) or []) + (x.get("ext_applied", []) or []):
             name = a.split("(")[0].lstrip("@")
             if inc is True or (isinstance(inc, list) and name in inc):
                 out.append(name)
@@ -302,6 +305,9 @@ def specs_for_printing(draw):
             for a in m.get("args", []) or []:
                 if draw(st.integers(0, 5)) == 0:
                     a["applied"] = ["@cd"]
+    for n, t in spec["types"].items():
+        if draw(st.integers(0, 5)) == 0 and n not in ("Query", "Mutation", "Subscription"):
+            t["ext_applied"] = [draw(st.sampled_from(["@cd(n: 9)", "@cd", "@other"])) if t["kind"] == "object" else draw(st.sampled_from(["@cd(n: 8)", "@cd"]))]
     if draw(st.integers(0, 2)) == 0:
         # description lines that fill the printer's line budget (120 - indent width * depth) exactly for one indent width
         els = [(x, d) for x, d in _described(spec) if x.get("name") not in ("cd", "other")]
